@@ -954,7 +954,7 @@ func Run(c *ev.Ctx) int {
 			wg.Add(1)
 			go func(cf cfg, seed int64) {
 				defer wg.Done()
-				timedKills(c, cf, []string{"PUT-overwrite", "PUT-overwrite-versioned", "COPY-onto", "MPU-complete-overwrite", "UPLOAD-PART-overwrite", "PUT-new"}, 100, seed)
+				timedKills(c, cf, []string{"PUT-overwrite", "PUT-overwrite-versioned", "COPY-onto", "MPU-complete-overwrite", "UPLOAD-PART-overwrite", "PUT-new"}, 400, seed)
 			}(cf, rt.Int63())
 		}
 		wg.Wait()
